@@ -81,11 +81,18 @@ def run(prop, tier, seed, a):
         if st == 'error': errors.append(r)
         elif st == 'disagree': disagree.append(r)
         elif st == 'undecided': undecided.append(r)
+        elif st == 'refuted' and r.get('expect') == 'sat':
+            # a cover / must-fail that fails means the run is vacuous or the encoding proves too much: a checker problem, never a violation
+            r['detail'] = "VACUITY/SANITY guard failed: " + (r.get('detail') or '')
+            errors.append(r)
         elif st == 'refuted':
             if r.get('meta', {}).get('kind') == 'fingerprint':
                 continue                       # a fingerprint that fails only means "not the known defect"
             k = match_known(r, kf, byname)
-            if k is not None:
+            if k == 'undecided':
+                r['detail'] = "matches a known finding but its fingerprint is undecided: " + (r.get('detail') or '')
+                undecided.append(r)
+            elif k is not None:
                 r['known_finding'] = k['id']; kf_lines.append((k, r))
             else:
                 refuted.append(r)
@@ -116,6 +123,18 @@ def run(prop, tier, seed, a):
         print("KNOWN-FINDING: property=%s %s [%s]" % (prop, k['what'], k['id']))
     if code == 1:
         paths = RP.write_replays(prop, refuted, src, cx)
+        # an obligation whose hypotheses quantify over an ARBITRARY loop state (inductive step) is refuted by a "counterexample to
+        # induction", which need not be reachable: it is a violation only if the real code reproduces it; otherwise undecided
+        keep = []
+        for r, path in zip(refuted, paths):
+            if r.get('meta', {}).get('inductive') and not r.get('replayed'):
+                r['detail'] = "counterexample to induction not reproduced on the real code (%s): %s" % (path, r.get('detail', ''))
+                undecided.append(r)
+            else: keep.append((r, path))
+        if not keep:
+            code = 2
+        refuted = [r for r, _ in keep]; paths = [p_ for _, p_ in keep]
+    if code == 1:
         for r, path in zip(refuted, paths):
             suffix = "" if r.get('replayed') else " no-failing-input-found"
             print("VIOLATION property=%s replay=%s obligation=%s%s" % (prop, path, r['name'], suffix))
@@ -178,10 +197,13 @@ def native_bounded(cx, prop, n):
 
 
 def match_known(r, kf, byname):
+    """known finding k if r matches its obligation pattern and every fingerprint of k discharges; a fingerprint that is merely
+    undecided (solver budget) makes r undecided, never a violation and never a silently accepted finding"""
     for k in kf:
         if not any(fnmatch.fnmatch(r['name'], pat) for pat in k['obligations']): continue
         fps = [x for n, x in byname.items() if x.get('meta', {}).get('kind') == 'fingerprint' and x['meta'].get('finding') == k['id']]
         if fps and all(x['status'] == 'discharged' for x in fps): return k
+        if fps and not any(x['status'] == 'refuted' for x in fps): return 'undecided'
     return None
 
 
